@@ -124,6 +124,9 @@ PeakInstances(T, I, v) ==
     LET raw == Raw480(T, I, v) IN IF IsEmpty(raw) THEN 0 ELSE MaxOf({CeilDiv(raw[h], 480) : h \in DOMAIN raw})
 FixedCountError(T, I, v) ==
     I.sv[v].type = "on-premise" /\ I.sv[v].fixed > 0 /\ PeakInstances(T, I, v) > I.sv[v].fixed
+FixedCountAtTheLimit(T, I, v) ==
+    LET raw == Raw480(T, I, v) IN
+    I.sv[v].type = "on-premise" /\ I.sv[v].fixed > 0 /\ ~IsEmpty(raw) /\ \E h \in DOMAIN raw : raw[h] = I.sv[v].fixed * 480
 Nb480(T, I, v) ==
     LET raw == Raw480(T, I, v) IN
     IF IsEmpty(raw) THEN EMPTY
@@ -186,6 +189,11 @@ NegativeStorageError(T, I, t) ==
 StoNbRaw(T, I, t) == LET c == StoCumulative(T, I, t) IN [h \in DOMAIN c |-> CeilDiv(c[h], I.st[t].cap)]
 StoFixedError(T, I, t) ==
     LET n == StoNbRaw(T, I, t) IN I.st[t].fixed > 0 /\ \E h \in DOMAIN n : n[h] > I.st[t].fixed
+(* the need equals the fixed count exactly at some hour: the code divides floats, the quotient may come out a hair above  *)
+(* the integer and the fixed count be refused -- which the property allows ("honoured exactly or the model raises")       *)
+StoFixedAtTheLimit(T, I, t) ==
+    LET c == StoCumulative(T, I, t) IN
+    I.st[t].fixed > 0 /\ \E h \in DOMAIN c : c[h] = I.st[t].fixed * I.st[t].cap
 StoNb(T, I, t) ==
     LET n == StoNbRaw(T, I, t) IN IF I.st[t].fixed > 0 THEN [h \in DOMAIN n |-> I.st[t].fixed] ELSE n
 (* active instances x capacity: what is written, deleted or dumped in the hour, at most what is provisioned *)
